@@ -174,7 +174,9 @@ pub fn test_prog_cap(c: &ProgCapCase) -> Verdict {
     // 1. unconstrained twin: outcome and sampled peaks
     let mut a = Allocator::new();
     let (Ok(p), Ok(e)) = (build(&mut a, &pc.p.prog), build(&mut a, &pc.p.env)) else { return Verdict::discard() };
-    let d = Sampler { inner: clvmr::chia_dialect::ChiaDialect::new(crate::util::flags(pc.flags)), peak: Default::default(), f5_bytes: Default::default() };
+    // (the twin runs without ENABLE_GC: reclamation is unobservable in the reported counts, so the counts an
+    // unconstrained non-collecting run reaches are what the caps have to be enforced against)
+    let d = Sampler { inner: clvmr::chia_dialect::ChiaDialect::new(crate::util::flags(pc.flags & !crate::util::F_ENABLE_GC)), peak: Default::default(), f5_bytes: Default::default() };
     d.sample(&a);
     let r = guard(|| clvmr::run_program::run_program(&mut a, &d, p, e, budget));
     d.sample(&a);
